@@ -7,7 +7,7 @@ Only property theorems (and their non-vacuity examples) live here. The model is
 All theorems quantify over *every* schedule (any interleaving of callers, writers, closes), every
 queue size, and every remote behaviour (healthy, gated = slow / blocked for ever, failing at write k).
 -/
-import AnySyncModel.StreamPool.Lemmas
+import AnySyncModel.StreamPool.Isolation
 
 namespace AnySync.StreamPool
 
@@ -80,7 +80,7 @@ theorem fatal_unreachable (w q : Nat) (steps : List Step) :
   ⟨(indexes_consistent w q steps).no_fatal, (indexes_consistent w q steps).no_nil⟩
 
 example : (run (init 1 1) [.add 0 1 true 0 [0, 1], .add 0 2 false 0 [1], .removeTags 1 [0],
-    .readClose 1, .poolRemove 1]).byTag.get 1 = [2] := by decide
+    .readClose 1, .closeRemote 1, .poolRemove 1]).byTag.get 1 = [2] := by decide
 
 /-! ## ended streams are not targeted -/
 
@@ -120,8 +120,9 @@ theorem closed_stream_frozen (s s' : Stream) (hc : s.closed = true) (st : ObjSte
 /-- removal is pending exactly while `closed ∧ ¬removed`, and then the `removeStream` step is enabled
 for the party that closed the stream: it does not wait for anything. -/
 theorem removal_enabled (p : Pool) (sid : Nat) (s : Stream) (hg : getObj p.objs sid = some s)
-    (hc : s.closed = true) (hr : s.removed = false) : (step p (.poolRemove sid)).2 = .ok := by
-  simp only [step, Pool.poolRemove, hg, hc, hr]
+    (hc : s.closed = true) (hrc : s.remoteClosed = true) (hr : s.removed = false) :
+    (step p (.poolRemove sid)).2 = .ok := by
+  simp only [step, Pool.poolRemove, hg, hc, hr, hrc]
   simp only [Bool.not_true, Bool.false_eq_true, or_self, if_false]
   split
   · rfl
@@ -202,27 +203,105 @@ theorem writer_steps_keep_calls (p : Pool) (sid : Nat) (b : Bool) :
     split <;> rfl
 
 
+/-! ## the same invariants along macro schedules (what the correspondence harness executes) -/
+
+theorem queue_bounded_macro (w q : Nat) (σ : List MStep) :
+    ∀ s ∈ (mrun (init w q) σ).objs,
+      s.queue.length ≤ s.cap ∧ s.queue.length + s.inflight.toList.length ≤ s.cap + 1 := by
+  intro s hs
+  have h := obj_invariant_m QueueOk queueOk_fresh queueOk_step (init w q) (by simp [init]) σ s hs
+  refine ⟨h, ?_⟩
+  unfold QueueOk at h
+  cases s.inflight <;> simp <;> omega
+
+theorem fifo_per_stream_macro (w q : Nat) (σ : List MStep) :
+    ∀ s ∈ (mrun (init w q) σ).objs, s.delivered <+: s.accepted := by
+  intro s hs
+  exact (obj_invariant_m FifoOk fifoOk_fresh fifoOk_step (init w q) (by simp [init]) σ s hs).2.1
+
+theorem indexes_consistent_macro (w q : Nat) (σ : List MStep) : IdxInv (mrun (init w q) σ) :=
+  (IdxInv.init w q).mrun σ
+
+/-! ## closing the remote is never done under the pool lock
+
+`streamClose` = `closed.Swap(true)`; `queue.Close()`; `stream.Close()` (step `closeRemote`: an
+environment-dependent call that may take arbitrarily long or never return); and only then
+`pool.removeStream` (step `poolRemove`, the critical section under `s.mu`). -/
+
+/-- While `Close()` of a stream has not returned, its removal (the only step that runs under the pool
+mutex on its behalf) has not started: the pool is untouched by the attempt. -/
+theorem close_pending_blocks_only_own_removal (p : Pool) (x : Nat) (s : Stream)
+    (hg : getObj p.objs x = some s) (hrc : s.remoteClosed = false) : (step p (.poolRemove x)).1 = p := by
+  simp [step, Pool.poolRemove, hg, hrc]
+
+/-- …and every caller step — for any peer, including the one whose `Close()` hangs — is still enabled
+(instance of `caller_never_waits_on_stream`, which holds in every state). -/
+theorem caller_never_waits_on_close (p : Pool) (x : Nat) (s : Stream) (_hg : getObj p.objs x = some s)
+    (_hc : s.closed = true) (_hrc : s.remoteClosed = false) (st : Step) (hcaller : st.isCaller = true)
+    (hcall : ∀ cid, st = .callWrite cid → ∃ c, p.calls.find? (fun c => c.id = cid) = some c) :
+    (step p st).2 ≠ .disabled :=
+  caller_never_waits_on_stream p st hcaller hcall
+
+/-- the return of `Close()` touches nothing but the stream's own object -/
+theorem close_return_local (p : Pool) (x a : Nat) (hax : a ≠ x) :
+    getObj (step p (.closeRemote x)).1.objs a = getObj p.objs a ∧
+    (step p (.closeRemote x)).1.streams = p.streams ∧ (step p (.closeRemote x)).1.byPeer = p.byPeer ∧
+    (step p (.closeRemote x)).1.byTag = p.byTag :=
+  ⟨foreign_step_frame p (.closeRemote x) a x rfl hax,
+   (writer_step_keeps_pool p (.closeRemote x) x (by simp [Step.isWriterOf])).1,
+   (writer_step_keeps_pool p (.closeRemote x) x (by simp [Step.isWriterOf])).2.1,
+   (writer_step_keeps_pool p (.closeRemote x) x (by simp [Step.isWriterOf])).2.2.1⟩
+
+example : ((run (init 1 1) [.add 0 1 true 0 [0], .setCloseBlocks 1 true, .readClose 1, .poolRemove 1]).streams = [1]) ∧
+    ((run (init 1 1) [.add 0 1 true 0 [0], .setCloseBlocks 1 true, .readClose 1, .closeRemote 1, .poolRemove 1]).streams = []) := by
+  decide
+
 /-! ## isolation
 
-`C19_isolation_full` is the trace-level non-interference statement. It is NOT proved; what is proved
-are its four frame conditions (`isolation_*`). Missing: the unwinding argument that lifts them to
-traces (simulation relation "the pools agree on every object and index entry of peers ≠ peer(b)"). -/
+`C19_isolation_full` is the trace-level non-interference statement; `isolation_full` proves it by the
+unwinding argument of `StreamPool/Isolation.lean`. It is stated over *macro* schedules (`MStep`):
+`Broadcast` / `SendById` run to completion as one step, every other step is as fine-grained as before.
+Two restrictions, both about aligning two runs step by step and not about interference:
+* calls are not split into snapshot + single writes (`MStep.ok`): the number of write steps of a
+  call depends on how many streams it snapshotted, so two runs in which `b` was / was not yet removed
+  cannot execute "the same list of steps";
+* the handler opens no stream (`MStep.ok` excludes `setPlan _ (some _)`): stream ids are allocated
+  globally, a stream opened for `b`'s peer in only one of the two runs would shift all later ids.
+The four `isolation_*` frame theorems below hold for every fine-grained step without these restrictions. -/
 
-/-- schedules that differ only in the steps of `b`'s writer goroutine and remote (how fast `MsgSend`
-returns, whether and when it fails, whether the peer context is cancelled) -/
-def sameUpToWriterOf (b : Nat) (σ σ' : List Step) : Prop :=
-  σ.filter (fun st => !st.isWriterOf b) = σ'.filter (fun st => !st.isWriterOf b)
-
-/-- no stream is opened by the handler (stream ids are allocated globally, so a stream opened for
-`b`'s peer in only one of two runs would shift all later ids) -/
-def noHandlerOpen (σ : List Step) : Prop := ∀ st ∈ σ, ∀ peer sp, st ≠ .setPlan peer (some sp)
-
-/-- full statement (unproved): replacing the behaviour of `b`'s writer leaves the whole history of every
-stream `a` of another peer unchanged -/
+/-- **Non-interference.** Take two macro schedules that differ only in the steps of `b`'s writer
+goroutine and remote (when `MsgSend` returns, whether and when it fails, whether the peer context is
+cancelled, how long `Close()` takes — including "never"). Then every stream `a` of another peer has the
+same object — same accepted, buffered, in-flight and delivered messages, same tags, same life cycle —
+after both. -/
 def C19_isolation_full : Prop :=
-  ∀ (w q a b : Nat) (σ σ' : List Step), sameUpToWriterOf b σ σ' → noHandlerOpen σ →
-    peerOf (run (init w q) σ).objs a ≠ peerOf (run (init w q) σ).objs b →
-    getObj (run (init w q) σ).objs a = getObj (run (init w q) σ').objs a
+  ∀ (w q a b pb : Nat) (σ σ' : List MStep),
+    (∀ ms ∈ σ, ms.ok = true) → (∀ ms ∈ σ', ms.ok = true) →
+    σ.filter (fun ms => !ms.isWriterOf b) = σ'.filter (fun ms => !ms.isWriterOf b) →
+    (∀ k, peerOf (mrun (init w q) σ).objs b = some k → k = pb) →
+    peerOf (mrun (init w q) σ).objs a ≠ some pb →
+    getObj (mrun (init w q) σ).objs a = getObj (mrun (init w q) σ').objs a
+
+theorem isolation_full : C19_isolation_full := by
+  intro w q a b pb σ σ' hok hok' hf hb ha
+  let fin := (mrun (init w q) σ).objs
+  let isB : Nat → Bool := fun y => decide (peerOf fin y = some pb)
+  have hr : Rel isB pb (mrun (init w q) σ) (mrun (init w q) σ') :=
+    unwind b fin (fun y => by simp [isB]) hb σ (init w q) σ' (init w q) (Rel.refl _ rfl)
+      (IdxInv.init w q) (IdxInv.init w q) (Ext.refl _) hok hok' hf
+  exact hr.objs a (by simp [isB]; exact ha)
+
+/-- the hypotheses are satisfiable and the conclusion is not vacuous: `b` (stream 1, peer 0) is healthy in
+one run and blocked for ever, then failing, in the other; stream 2 (peer 1) receives the same messages -/
+example :
+    let σ  : List MStep := [.atom (.add 0 1 false 0 [0]), .atom (.add 1 1 false 0 [0]), .broadcast 7 [0],
+      .atom (.take 1), .atom (.complete 1), .atom (.take 2), .atom (.complete 2), .sendById 8 [0, 1]]
+    let σ' : List MStep := [.atom (.add 0 1 false 0 [0]), .atom (.add 1 1 false 0 [0]), .broadcast 7 [0],
+      .atom (.take 2), .atom (.complete 2), .sendById 8 [0, 1]]
+    (getObj (mrun (init 1 1) σ).objs 2).map (·.accepted) = some [7, 8] ∧
+    (getObj (mrun (init 1 1) σ').objs 2).map (·.accepted) = some [7, 8] ∧
+    (getObj (mrun (init 1 1) σ).objs 1).map (·.accepted) = some [7, 8] ∧
+    (getObj (mrun (init 1 1) σ').objs 1).map (·.accepted) = some [7] := by decide
 
 /-- frame 1: a writer / remote / close / removal step of stream `b` changes no other stream object -/
 theorem isolation_foreign_step_frame (p : Pool) (st : Step) (a b : Nat) (hs : st.subject = some b)
